@@ -381,6 +381,8 @@ def naming(kind, n_max=12):
         return {k: 8 * (k - 1) for k in range(1, n_max + 1)}
     if kind == "big":
         return {k: 100 + k for k in range(1, n_max + 1)}
+    if kind == "neg":
+        return {k: -k for k in range(1, n_max + 1)}
     if kind == "zero":
         return {k: k - 1 for k in range(1, n_max + 1)}
     raise ValueError(kind)
